@@ -38,6 +38,8 @@ def plan(tier, seed):
     shards = 16 if tier == 'quick' else 48
     specs = [{'kind': 'gen', 'docs': ndocs // shards, 'gshard': s} for s in range(shards)]
     specs.append({'kind': 'corpus'})
+    for s in range(2 if tier == 'quick' else 8):
+        specs.append({'kind': 'ident', 'ishard': s, 'docs': 30 if tier == 'quick' else 150})
     return specs
 
 
@@ -380,9 +382,190 @@ def run_corpus(spec, res):
     res.count('recorder:hits', rec.hits)
 
 
+# ---------------------------------------------------------------------------------------------
+# identity constraints of ancestors under path-driven validation
+LIB_NS = 'urn:vk:lib'
+LIB_XSD = f'''<xs:schema xmlns:xs="http://www.w3.org/2001/XMLSchema" xmlns:l="{LIB_NS}" targetNamespace="{LIB_NS}"
+    elementFormDefault="qualified">
+  <xs:element name="lib">
+    <xs:complexType><xs:sequence>
+      <xs:element name="shelf" maxOccurs="unbounded">
+        <xs:complexType><xs:sequence>
+          <xs:element name="book" maxOccurs="unbounded">
+            <xs:complexType><xs:sequence><xs:element name="title" type="xs:string"/>
+              <xs:element name="copy" minOccurs="0" maxOccurs="unbounded"><xs:complexType><xs:attribute name="tag" type="xs:int"/></xs:complexType></xs:element>
+            </xs:sequence>
+            <xs:attribute name="code" type="xs:int" use="required"/><xs:attribute name="no" type="xs:int" use="required"/></xs:complexType>
+            <xs:unique name="copyTag"><xs:selector xpath="l:copy"/><xs:field xpath="@tag"/></xs:unique>
+          </xs:element>
+        </xs:sequence></xs:complexType>
+        <xs:key name="bookNo"><xs:selector xpath="l:book"/><xs:field xpath="@no"/></xs:key>
+      </xs:element>
+    </xs:sequence></xs:complexType>
+    <xs:unique name="bookCode"><xs:selector xpath="l:shelf/l:book"/><xs:field xpath="@code"/></xs:unique>
+    <xs:unique name="titleText"><xs:selector xpath=".//l:title"/><xs:field xpath="."/></xs:unique>
+    <xs:unique name="copyAny"><xs:selector xpath="l:shelf/l:book/l:copy"/><xs:field xpath="@tag"/></xs:unique>
+  </xs:element>
+</xs:schema>'''
+
+
+def gen_lib(rng):
+    """A library of shelves / books / copies with all identity values distinct, then 0..2 seeded duplicates.
+    Returns (text, dups) with dups = [(constraint, index path of the earlier holder of the value, of the later one)]."""
+    shelves = []
+    code = 100
+    tag = 1000
+    for s in range(rng.randint(2, 4)):
+        books = []
+        for b in range(rng.randint(1, 4)):
+            code += 1
+            copies = []
+            for c in range(rng.choice((0, 0, 1, 2, 3))):
+                tag += 1
+                copies.append({'tag': tag})
+            books.append({'code': code, 'no': b + 1, 'title': f'T{code}', 'copies': copies})
+        shelves.append(books)
+    flat = [(si, bi) for si, books in enumerate(shelves) for bi in range(len(books))]
+    dups = []
+    for _ in range(rng.choice((0, 1, 1, 2))):
+        kind = rng.choice(('bookCode', 'bookCode', 'titleText', 'bookNo', 'copyAny', 'copyTag'))
+        if kind in ('bookCode', 'titleText') and len(flat) >= 2:
+            (s1, b1), (s2, b2) = sorted(rng.sample(flat, 2))
+            field = 'code' if kind == 'bookCode' else 'title'
+            if any(d[0] == kind for d in dups):
+                continue
+            shelves[s2][b2][field] = shelves[s1][b1][field]
+            tail = (0,) if kind == 'titleText' else ()
+            dups.append((kind, (s1, b1) + tail, (s2, b2) + tail))
+        elif kind == 'bookNo':
+            cand = [si for si, books in enumerate(shelves) if len(books) >= 2]
+            if cand and not any(d[0] == kind for d in dups):
+                si = rng.choice(cand)
+                b1, b2 = sorted(rng.sample(range(len(shelves[si])), 2))
+                shelves[si][b2]['no'] = shelves[si][b1]['no']
+                dups.append((kind, (si, b1), (si, b2)))
+        else:
+            allc = [(si, bi, ci) for si, bi in flat for ci in range(len(shelves[si][bi]['copies']))]
+            if kind == 'copyTag':
+                allc = [x for x in allc if len(shelves[x[0]][x[1]]['copies']) >= 2]
+            if len(allc) >= 2 and not any(d[0] in ('copyAny', 'copyTag') for d in dups):
+                c1, c2 = sorted(rng.sample(allc, 2))
+                if kind == 'copyTag':
+                    c2 = (c1[0], c1[1], rng.choice([k for k in range(len(shelves[c1[0]][c1[1]]['copies'])) if k != c1[2]]))
+                    c1, c2 = sorted((c1, c2))
+                shelves[c2[0]][c2[1]]['copies'][c2[2]]['tag'] = shelves[c1[0]][c1[1]]['copies'][c1[2]]['tag']
+                ip = lambda c: (c[0], c[1], 1 + c[2])
+                dups.append(('copyAny', ip(c1), ip(c2)))
+                if c1[:2] == c2[:2]:
+                    dups.append(('copyTag', ip(c1), ip(c2)))
+    out = [f'<l:lib xmlns:l="{LIB_NS}">']
+    for books in shelves:
+        out.append('<l:shelf>')
+        for b in books:
+            out.append(f'<l:book code="{b["code"]}" no="{b["no"]}"><l:title>{b["title"]}</l:title>')
+            out.extend(f'<l:copy tag="{c["tag"]}"/>' for c in b['copies'])
+            out.append('</l:book>')
+        out.append('</l:shelf>')
+    out.append('</l:lib>')
+    return ''.join(out), dups, shelves
+
+
+def run_ident(spec, res):
+    """Path-driven validation with identity constraints declared on ancestors of the selected elements and on the selected
+    elements themselves. A duplicate whose two holders both lie in the selected part must be reported there as in the full
+    run; nothing may be reported that the full run does not report for that part."""
+    xmlschema = env.activate_repo()
+    rng = env.rng_for(PROPERTY, spec['tier'], spec['seed'], 'ident', spec['ishard'])
+    nsmap = {'l': LIB_NS}
+    for version, cls in (('1.0', xmlschema.XMLSchema10), ('1.1', xmlschema.XMLSchema11)):
+        schema = cls(LIB_XSD)
+        for d in range(spec['docs']):
+            text, dups, shelves = gen_lib(rng)
+            resource = xmlschema.XMLResource(text)
+            idx = index_paths(resource.root)
+            full = []
+            for e in schema.iter_errors(resource):
+                if 'duplicated value' in (e.reason or ''):
+                    full.append((e.reason, idx.get(id(e.elem))))
+                else:
+                    res.inconclusive_case('lib document has an error that was not seeded', [e.reason])
+            if len(full) != len(dups):
+                res.violation('full-run-identity-errors-differ-from-seeded-duplicates', {'family': 'lib', 'version': version, 'doc': text},
+                              f'seeded {dups} reported {full}')
+                continue
+            nsh = len(shelves)
+            k = rng.randint(1, nsh)
+            paths = [('/l:lib/l:shelf', [(s,) for s in range(nsh)]),
+                     ('/l:lib/l:shelf/l:book', [(s, b) for s in range(nsh) for b in range(len(shelves[s]))]),
+                     ('//l:book', [(s, b) for s in range(nsh) for b in range(len(shelves[s]))]),
+                     ('/l:lib/l:shelf/l:book/l:title', [(s, b, 0) for s in range(nsh) for b in range(len(shelves[s]))]),
+                     ('/l:lib/l:shelf/l:book/l:copy', [(s, b, 1 + c) for s in range(nsh) for b in range(len(shelves[s]))
+                                                       for c in range(len(shelves[s][b]['copies']))]),
+                     (f'/l:lib/l:shelf[{k}]/l:book', [(k - 1, b) for b in range(len(shelves[k - 1]))]),
+                     (f'/l:lib/l:shelf[{k}]', [(k - 1,)])]
+            for path, sel in paths:
+                if not sel:
+                    continue
+                inside = lambda ip: any(ip[:len(p)] == p for p in sel)
+                # a duplicate is within reach of the partial run when the element that declares the constraint is an
+                # ancestor-or-self of... the selected elements or lies below them, and both holders are in the part
+                must = sorted((r, ip) for (r, ip), (kind, first, later) in zip(sorted(full, key=lambda x: x[1]),
+                                                                            sorted(dups, key=lambda x: x[2]))
+                              if inside(first) and inside(later))
+                may = sorted((r, ip) for r, ip in full if inside(ip))
+                for mode in ('full', 'lazy_thin', 'lazy_kept'):
+                    lazy = mode != 'full'
+                    if lazy and path.startswith('//'):
+                        continue   # refused on lazy resources
+                    rkw = {'lazy': lazy, 'thin_lazy': mode == 'lazy_thin'} if lazy else {}
+                    case = {'family': 'lib', 'version': version, 'doc': text, 'path': path, 'lazy': lazy, 'resource': rkw}
+                    res.case(env.h8(('lib', strip_pos(path), 'ident', mode, tuple(sorted(d[0] for d in dups)))))
+                    res.count('ident:runs')
+                    try:
+                        perrs = list(schema.iter_errors(xmlschema.XMLResource(text, **rkw), path=path, namespaces=nsmap))
+                        pvalid = schema.is_valid(xmlschema.XMLResource(text, **rkw), path=path, namespaces=nsmap)
+                    except xmlschema.XMLSchemaException as x:
+                        res.violation('partial-iter_errors-raised', case, f'{path}: {x!r}'[:300])
+                        continue
+                    got = []
+                    for e2 in perrs:
+                        if lazy:
+                            got.append((e2.reason, None))
+                            continue
+                        sel2 = eval_path(e2.root, e2.path, e2.namespaces or {}) if e2.root is not None and e2.path else []
+                        got.append((e2.reason, index_paths(e2.root).get(id(sel2[0])) if len(sel2) == 1 else None))
+                    if lazy:
+                        must_c, may_c = [(r, None) for r, _ in must], [(r, None) for r, _ in may]
+                    else:
+                        must_c, may_c = must, may
+                    missing = [m for m in must_c if got.count(m) < must_c.count(m)]
+                    extra = [g for g in got if got.count(g) > may_c.count(g)]
+                    head = lambda r: [(x.tag, sorted(x.attrib.items()), (x.text or '').strip()) for x in r.iterfind(path, nsmap)]
+                    if (missing or extra) and lazy and '[' in path and \
+                            head(xmlschema.XMLResource(text, **rkw)) != head(xmlschema.XMLResource(text)):
+                        # the resource itself selects other elements than the path denotes: the validator is not the cause
+                        res.violation('lazy-resource-selects-other-elements:positional-predicate-counts-only-siblings-still-in-memory',
+                                      case, f'lib path={path} {rkw}: the resource yields '
+                                      f'{len(head(xmlschema.XMLResource(text, **rkw)))} elements for a path that denotes {len(sel)}')
+                    elif missing:
+                        res.violation('partial-run-misses-identity-error-of-the-part', case,
+                                      f'lib path={path} {mode}: missing {missing[:2]} got {got[:3]}')
+                    elif extra:
+                        res.violation('partial-run-reports-identity-error-the-full-run-does-not', case,
+                                      f'lib path={path} {mode}: extra {extra[:2]} full-part {may_c[:3]}')
+                    elif pvalid != (not perrs):
+                        res.violation('partial-is_valid-differs-from-partial-iter_errors', case, f'lib path={path} {mode}')
+                    else:
+                        res.count('ident:agree' + ('_nonempty' if must_c else ''))
+            if len(res.samples) < 2:
+                res.sample({'family': 'lib', 'seeded_duplicates': [d[0] for d in dups], 'chars': len(text)})
+
+
 def run_shard(spec, res):
     if spec['kind'] == 'gen':
         run_gen(spec, res)
+    elif spec['kind'] == 'ident':
+        run_ident(spec, res)
     else:
         run_corpus(spec, res)
 
@@ -392,7 +575,7 @@ def finalize(res, tier):
     reasons = []
     if not c.get('recorder:hits'):
         reasons.append('recorder on XsdElement.raw_decode never fired')
-    for k in ('lookup:agree', 'partial:objects:agree', 'partial:errors:agree_nonempty', 'max_depth:agree'):
+    for k in ('lookup:agree', 'partial:objects:agree', 'partial:errors:agree_nonempty', 'max_depth:agree', 'ident:agree_nonempty'):
         if not c.get(k):
             reasons.append(f'deciding tally {k} is empty')
     return {'inconclusive': reasons}
@@ -405,6 +588,15 @@ def replay(case):
     res = Result()
     if 'corpus' in case:
         run_corpus({}, res)
+    elif case.get('family') == 'lib':
+        cls = xmlschema.XMLSchema10 if case['version'] == '1.0' else xmlschema.XMLSchema11
+        schema = cls(LIB_XSD)
+        full = [e.reason for e in schema.iter_errors(case['doc'])]
+        part = [e.reason for e in schema.iter_errors(xmlschema.XMLResource(case['doc'], **case.get('resource', {})),
+                                                     path=case.get('path'), namespaces={'l': LIB_NS})]
+        print('full run:', full)
+        print('path run:', case.get('path'), part)
+        return sorted(full) != sorted(part)
     else:
         rec = Recorder()
         cls = xmlschema.XMLSchema10 if case['version'] == '1.0' else xmlschema.XMLSchema11
